@@ -32,6 +32,7 @@ type Env struct {
 	S    *simrt.Sim
 	Prop string // the property this run decides
 	Tier string
+	Idx  int // run index within the batch
 	Log  *CapLog
 
 	Links    []*simnet.Link
